@@ -2132,6 +2132,123 @@ Section L007b.
     pose proof (l007_words_fixed_n (length l) l 0%nat (le_n _)) as H. induction H as [|cw r Hc Hr IH]; [reflexivity|].
     cbn [flat_map]. rewrite Hc. exact IH.
   Qed.
+  (* ---- exact flagging: the words the checker examines are the code words of the line, at their byte columns ---- *)
+  Notation inw_after := (inword_after is_letter is_digit).
+  Notation code_word := (code_word is_letter is_digit).
+
+  Lemma W_absorb_x : forall t i s w,
+    words i (Some (s, w)) t = words (i + blen (chars (take_l wcp t))) (Some (s, rev (chars (take_l wcp t)) ++ w)) (trim_l wcp t).
+  Proof.
+    induction t as [|p t IH]; intros i s w; [cbn [take_l trim_l chars map blen fold_right rev app]; rewrite Nat.add_0_r; reflexivity|]. cbn [take_l trim_l]. destruct (wcp p) eqn:E.
+    - cbn [l007_words]. rewrite E. rewrite IH. cbn [chars map rev]. rewrite blen_cons. rewrite <- app_assoc. cbn [app].
+      rewrite Nat.add_assoc. reflexivity.
+    - cbn [chars map blen fold_right rev app]. rewrite Nat.add_0_r. reflexivity.
+  Qed.
+
+  Lemma W_word_x : forall i p t, wordc false p = true ->
+    words i None (p :: t) = (S i, chars (p :: take_l wcp t)) :: words (i + blen (chars (p :: take_l wcp t))) None (trim_l wcp t).
+  Proof.
+    intros i p t H. cbn [l007_words]. rewrite H. rewrite W_absorb_x. rewrite W_boundary by apply trim_l_stops.
+    rewrite rev_app_distr. rewrite rev_involutive. cbn [rev app chars map]. rewrite blen_cons. rewrite Nat.add_assoc. reflexivity.
+  Qed.
+
+  Lemma inw_all : forall a, forallb wcp a = true -> inw_after true a = true.
+  Proof. induction a as [|p a IH]; intro H; [reflexivity|]. cbn in H. apply andb_prop in H. destruct H as [H1 H2]. cbn [inword_after]. rewrite H1. apply IH. exact H2. Qed.
+
+  Lemma inw_app : forall a b s, inw_after s (a ++ b) = inw_after (inw_after s a) b.
+  Proof. induction a as [|p a IH]; intros b s; [reflexivity|]. cbn [app inword_after]. apply IH. Qed.
+
+  Lemma inw_stop : forall d b s, wcp d = false -> inw_after s (d :: b) = inw_after false b.
+  Proof.
+    intros d b s H. cbn [inword_after]. destruct s; [rewrite H; reflexivity|rewrite (wordc_cont_not d H); reflexivity].
+  Qed.
+
+  (* the first character that does not continue a word *)
+  Lemma first_stop : forall a, forallb wcp a = false -> exists x d y, a = x ++ d :: y /\ forallb wcp x = true /\ wcp d = false.
+  Proof.
+    induction a as [|p a IH]; intro H; [discriminate|]. cbn in H. destruct (wcp p) eqn:E.
+    - cbn in H. destruct (IH H) as (x & d & y & E1 & E2 & E3). exists (p :: x), d, y. subst. cbn. rewrite E, E2. repeat split; assumption.
+    - exists [], p, a. repeat split. exact E.
+  Qed.
+
+  Lemma words_exact_n : forall n l i col w, (length l <= n)%nat ->
+    (In (col, w) (words i None l) <->
+     exists pre wd post, code_word l pre wd post /\ col = S (i + blen (chars pre)) /\ w = chars wd).
+  Proof.
+    induction n as [|n IH]; intros l i col w Hl.
+    - destruct l; [|cbn in Hl; lia]. cbn. split; [intros []|]. intros (pre & wd & post & (E & _ & Hw & _) & _).
+      destruct pre; [|discriminate]. destruct wd; [destruct Hw|discriminate].
+    - destruct l as [|p t].
+      { cbn. split; [intros []|]. intros (pre & wd & post & (E & _ & Hw & _) & _).
+        destruct pre; [|discriminate]. destruct wd; [destruct Hw|discriminate]. }
+      cbn [length] in Hl.
+      assert (Hlen : (length (trim_l wcp t) <= n)%nat).
+      { pose proof (take_trim_l wcp t) as E. apply (f_equal (@length cc)) in E. rewrite app_length in E. lia. }
+      destruct (wordc false p) eqn:Ew.
+      + rewrite W_word_x by exact Ew. cbn [In]. rewrite (IH _ _ col w Hlen). split.
+        * intros [H|(pre & wd & post & (E & Ho & Hw & Hp) & Ec & Ewd)].
+          -- injection H as H1 H2. exists [], (p :: take_l wcp t), (trim_l wcp t). split; [|split].
+             ++ split; [cbn [app]; rewrite take_trim_l; reflexivity|]. split; [reflexivity|]. split; [split; [exact Ew|apply take_l_all]|].
+                destruct (trim_l wcp t) as [|d r] eqn:Et; [exact I|]. eapply trim_l_head. exact Et.
+             ++ cbn [chars map blen fold_right]. lia.
+             ++ symmetry. exact H2.
+          -- exists ((p :: take_l wcp t) ++ pre), wd, post. split; [|split].
+             ++ split; [rewrite <- app_assoc; rewrite <- E; cbn [app]; rewrite take_trim_l; reflexivity|]. split; [|split; assumption].
+                rewrite inw_app. cbn [inword_after]. rewrite Ew. rewrite (inw_all _ (take_l_all wcp t)).
+                (* pre begins with a character that stops the word *)
+                destruct pre as [|d b].
+                ** exfalso. cbn [app] in E. destruct wd as [|q v]; [destruct Hw|]. destruct Hw as [Hq _].
+                   destruct (trim_l wcp t) as [|d r] eqn:Et; [discriminate|]. injection E as E1 E2. subst d.
+                   pose proof (trim_l_head _ _ _ _ Et) as Hd. rewrite (wordc_start_cont q Hq) in Hd. discriminate.
+                ** destruct (trim_l wcp t) as [|d' r] eqn:Et; [discriminate|]. cbn [app] in E. injection E as E1 E2. subst d'.
+                   pose proof (trim_l_head _ _ _ _ Et) as Hd. rewrite (inw_stop d b true Hd). rewrite (inw_stop d b false Hd) in Ho. exact Ho.
+             ++ rewrite Ec. unfold chars. rewrite map_app, blen_app. rewrite Nat.add_assoc. reflexivity.
+             ++ exact Ewd.
+        * intros (pre & wd & post & (E & Ho & Hw & Hp) & Ec & Ewd). destruct pre as [|q pre'].
+          -- left. cbn [app] in E. destruct wd as [|q v]; [destruct Hw|]. destruct Hw as [Hq Hv]. injection E as E1 E2. subst q.
+             assert (Et : take_l wcp t = v).
+             { rewrite E2. rewrite take_l_app_all by exact Hv. destruct post as [|d r]; [rewrite app_nil_r; reflexivity|].
+               rewrite take_l_stop by exact Hp. apply app_nil_r. }
+             rewrite Et. subst. cbn [chars map blen fold_right]. f_equal. lia.
+          -- right. cbn [app] in E. injection E as E1 E2. subst q.
+             cbn [inword_after] in Ho. rewrite Ew in Ho.
+             assert (Hna : forallb wcp pre' = false).
+             { destruct (forallb wcp pre') eqn:X; [rewrite (inw_all pre' X) in Ho; discriminate|reflexivity]. }
+             destruct (first_stop pre' Hna) as (x & d & y & Ex & Hx & Hd). subst pre'.
+             assert (Etk : take_l wcp t = x) by (rewrite E2; rewrite <- app_assoc; rewrite take_l_app_all by exact Hx; cbn [app]; rewrite take_l_stop by exact Hd; apply app_nil_r).
+             assert (Etr : trim_l wcp t = d :: y ++ wd ++ post).
+             { rewrite E2. rewrite <- app_assoc. rewrite trim_l_app_all by exact Hx. cbn [app]. apply trim_l_stop. exact Hd. }
+             exists (d :: y), wd, post. split; [|split].
+             ++ split; [rewrite Etr; reflexivity|]. split; [|split; assumption].
+                rewrite inw_app in Ho. rewrite (inw_all x Hx) in Ho. rewrite (inw_stop d y true Hd) in Ho. rewrite (inw_stop d y false Hd). exact Ho.
+             ++ rewrite Etk. rewrite Ec. change (p :: x ++ d :: y) with ((p :: x) ++ d :: y). unfold chars. rewrite map_app, blen_app, Nat.add_assoc. reflexivity.
+             ++ exact Ewd.
+      + rewrite W_other by exact Ew. rewrite (IH t _ col w) by lia. split.
+        * intros (pre & wd & post & (E & Ho & Hw & Hp) & Ec & Ewd). exists (p :: pre), wd, post. split; [|split].
+          -- split; [cbn [app]; rewrite E; reflexivity|]. split; [cbn [inword_after]; rewrite Ew; exact Ho|split; assumption].
+          -- cbn [chars map]. rewrite blen_cons. fold (chars pre). lia.
+          -- exact Ewd.
+        * intros (pre & wd & post & (E & Ho & Hw & Hp) & Ec & Ewd). destruct pre as [|q pre'].
+          -- exfalso. cbn [app] in E. destruct wd as [|q v]; [destruct Hw|]. destruct Hw as [Hq _]. injection E as E1 E2. subst q. congruence.
+          -- cbn [app] in E. injection E as E1 E2. subst q. cbn [inword_after] in Ho. rewrite Ew in Ho.
+             exists pre', wd, post. split; [|split].
+             ++ split; [exact E2|]. split; [exact Ho|split; assumption].
+             ++ rewrite Ec. cbn [chars map]. rewrite blen_cons. fold (chars pre'). lia.
+             ++ exact Ewd.
+  Qed.
+
+  Lemma l007_line_exact : forall n fl v,
+    In v (l007_check_line is_letter is_digit upper_ascii keywords n fl) <->
+    exists pre wd post, code_word (snd fl) pre wd post /\ word_viol (chars wd) = true /\ v = (n, S (blen (chars pre))).
+  Proof.
+    intros n fl v. unfold l007_check_line. rewrite in_flat_map. split.
+    - intros ((col & w) & Hin & Hv). cbn [fst snd] in Hv. destruct (word_viol w) eqn:E; [|destruct Hv]. destruct Hv as [Hv|[]].
+      apply (words_exact_n (length (snd fl)) (snd fl) 0%nat col w (le_n _)) in Hin.
+      destruct Hin as (pre & wd & post & Hc & Ec & Ew). exists pre, wd, post. subst. split; [exact Hc|]. split; [exact E|reflexivity].
+    - intros (pre & wd & post & Hc & Hv & Ev). exists (S (blen (chars pre)), chars wd). split.
+      + apply (words_exact_n (length (snd fl)) (snd fl) 0%nat _ _ (le_n _)). exists pre, wd, post. repeat split; try assumption; apply Hc.
+      + cbn [fst snd]. rewrite Hv. left. symmetry. exact Ev.
+  Qed.
 End L007b.
 
 Section L007Text.
@@ -3155,3 +3272,34 @@ Section A7.
     destruct (final && negb (ends_nl f) && end_code (lex_end SCode t)); [|exact Hf]. unfold ascl. intros c Hc. apply in_app_or in Hc. destruct Hc as [Hc|Hc]; [apply Hf; exact Hc|]. cbn in Hc. destruct Hc as [Hc|[]]. subst. apply ascc_nlc.
   Qed.
 End A7.
+
+(* ---------------- L007: exact flagging, location ---------------- *)
+Section L007Exact.
+  Variables is_letter is_digit : N -> bool.
+  Variable upper_ascii : N -> option N.
+  Variable keywords : list (list N).
+
+  Theorem l007_check_exact : forall t n col,
+    In (n, col) (l007_check is_letter is_digit upper_ascii keywords t) <->
+    exists fl pre wd post, nth_error (clines t) (n - 1) = Some fl /\ (1 <= n)%nat /\
+      code_word is_letter is_digit (snd fl) pre wd post /\
+      word_viol upper_ascii keywords (chars wd) = true /\ col = S (blen (chars pre)).
+  Proof.
+    intros t n col. unfold l007_check. rewrite on_clines_in. split.
+    - intros (i & fl & Hn & Hin). apply l007_line_exact in Hin. destruct Hin as (pre & wd & post & Hc & Hv & Ev).
+      assert (E : (n - 1 = i)%nat /\ (1 <= n)%nat /\ col = S (blen (chars pre))) by (inversion Ev; subst; repeat split; lia).
+      destruct E as (E1 & E2 & E3). exists fl, pre, wd, post. rewrite E1. split; [exact Hn|]. split; [exact E2|]. split; [exact Hc|]. split; [exact Hv|exact E3].
+    - intros (fl & pre & wd & post & Hn & H1 & Hc & Hv & Ec). exists (n - 1)%nat, fl. split; [exact Hn|].
+      apply l007_line_exact. exists pre, wd, post. split; [exact Hc|]. split; [exact Hv|]. subst col. f_equal. lia.
+  Qed.
+
+  (* the reported column is the byte column of a character of an existing line *)
+  Theorem l007_location : forall t n col, In (n, col) (l007_check is_letter is_digit upper_ascii keywords t) ->
+    exists fl, nth_error (clines t) (n - 1) = Some fl /\ (1 <= n <= length (clines t))%nat /\ (1 <= col <= S (blen (chars (snd fl))))%nat.
+  Proof.
+    intros t n col H. apply l007_check_exact in H. destruct H as (fl & pre & wd & post & Hn & H1 & (E & _) & _ & Ec).
+    exists fl. split; [exact Hn|]. split.
+    - split; [exact H1|]. assert (n - 1 < length (clines t))%nat by (apply nth_error_Some; congruence). lia.
+    - subst col. rewrite E. unfold chars. rewrite map_app, blen_app. split; [apply le_n_S; apply Nat.le_0_l|]. apply le_n_S. apply Nat.le_add_r.
+  Qed.
+End L007Exact.
